@@ -38,7 +38,7 @@ type Store interface {
 	RealCode() bool
 }
 
-var Kinds = []string{"ctl", "rmap", "nmap", "nstruct", "rstruct"}
+var Kinds = []string{"ctl", "rmap", "nmap", "nstruct", "rstruct", "nacc"}
 
 func New(kind string) (Store, error) {
 	base, mask, err := SplitKind(kind)
@@ -56,6 +56,8 @@ func New(kind string) (Store, error) {
 		return &Struct{useNode: true, hooks: mask}, nil
 	case "rstruct":
 		return &Struct{hooks: mask}, nil
+	case "nacc":
+		return &Acc{hooks: mask}, nil
 	}
 	return nil, fmt.Errorf("unknown store kind %q", kind)
 }
@@ -95,8 +97,8 @@ func (c *Ctl) Load(s *schema.Node, t *model.Tree) error {
 type RMap struct {
 	node  bool
 	hooks uint32 // pass-through hooks installed on the root node (hooks.go)
-	s    *schema.Node
-	m    map[string]interface{}
+	s     *schema.Node
+	m     map[string]interface{}
 }
 
 func (r *RMap) Kind() string {
